@@ -15,6 +15,7 @@ import Nuts.Driver.Codec
 import Nuts.Driver.Modes
 import Nuts.Driver.Fuzz
 import Nuts.Driver.Sparse
+import Nuts.Driver.BPT
 open Nuts Nuts.Driver
 
 inductive SuiteSt where
@@ -25,6 +26,7 @@ inductive SuiteSt where
   | modes (s : ModesSuite.St)
   | fuzz
   | sparse (s : SparseSuite.St)
+  | bpt (s : BPTSuite.St)
 
 def freshSuite (name : String) : SuiteSt :=
   match name with
@@ -33,6 +35,7 @@ def freshSuite (name : String) : SuiteSt :=
   | "modes" => .modes {}
   | "api-fuzz" => .fuzz
   | "db-sparse" => .sparse {}
+  | "bpt-ds" => .bpt {}
   | _ => if name.startsWith "db" then .db {} else .none
 
 def stepSuite (s : SuiteSt) (cmd impl : String) : SuiteSt × Verdict :=
@@ -44,6 +47,7 @@ def stepSuite (s : SuiteSt) (cmd impl : String) : SuiteSt × Verdict :=
   | .modes st => let (st', v) := ModesSuite.step st cmd impl; (.modes st', v)
   | .fuzz => (s, FuzzSuite.step cmd impl)
   | .sparse st => let (st', v) := SparseSuite.step st cmd impl; (.sparse st', v)
+  | .bpt st => let (st', v) := BPTSuite.step st cmd impl; (.bpt st', v)
 
 def renderVerdict (lineno : Nat) (cmd impl : String) (v : Verdict) : String :=
   let m := if v.model == impl then "M" else "m"
